@@ -13,6 +13,7 @@ var Payloads = []string{
 	`&lt;script&gt;`, `\"`, "`", "]", ")", `"`, "'", `<img src=x onerror=y>`, `--><script>`, `]]>`, `&notit;`, `&#xG;`, `&#0;`, `&#xD800;`, `&#1114112;`,
 	`&copy`, `&copy;`, `&#35;`, `&AMP;`, `&x;`, `&;`, `&#;`, `&#x;`, `%GG`, `%`, `%2`, ` `, `\`, `\\`, `é`, `"><b>`, `' onmouseover='x`, "\t", "\r", "a b", `<!--`, `</code></pre><script>`,
 	"```", "~~~", `<a href="x">`, `&lt`, `&gt;`, `&#60;`, `&#x3c;script&#x3e;`, `[x](y)`, `![x](y)`, `*x*`, "\x7f", "\x01", "\xc3", "&#38;#60;", "&amp;lt;",
+	"&#150;", "&#x80;", "&#159;", "&#127;", "&#x9F;", "%4", "/x%f", "caf\u00e9", "a|b|", "\U00010100",
 	"&#32;", "&Tab;", "&NewLine;", "&nbsp;", "&#9;", "&#10;", "a&#32;b c", "&#<1;", "&#x<a;", "&#\"1;", "/p?q=<script>", "<>", "a<b", "x>y",
 }
 
